@@ -339,10 +339,10 @@ def run(tier='quick', seed=0, nproc=16):
       jobs.append((shape, f, 'plain', True))
   jobs = gen.shuffled(jobs)
   res = common.pmap(check_case, jobs, nproc)
-  res.append(nested_build_case())
-  res.append(diagnostic_failure_case())
-  res.append(same_named_classes_case())
-  res.append(mutating_callable_case())
+  res.append(common.guard(nested_build_case))
+  res.append(common.guard(diagnostic_failure_case))
+  res.append(common.guard(same_named_classes_case))
+  res.append(common.guard(mutating_callable_case))
   return common.merge(
       res, 'layerb.prop_C05',
       rule='crash points: every Buildable node of every DAG shape (<= %d nodes, Config/list/dict) as '
